@@ -164,7 +164,7 @@ func (g *gen) lifeScenario(w *world, steps int) {
 		case k < 22:
 			l.deliver(g.r.Intn(2) == 0)
 		case k < 24:
-			w.tick([]int{31, 45, 50, 61, 120, 3600}[g.r.Intn(6)]) // no subset sum lies in (50 s, 60 s]: real elapsed time (seconds under load) must not carry the sum over the 60 s thresholds
+			w.tick([]int{45, 75, 120, 3600, 45, 75}[g.r.Intn(6)]) // no subset sum lies in (50 s, 60 s]: real elapsed time (seconds under load) must not carry the sum over the 60 s thresholds
 		case k < 26:
 			l.enqueue(p, []otr3.ValidMessage{w.query(p)})
 		case k < 28:
